@@ -275,6 +275,7 @@ type tcase struct {
 	check func(calls []srvkit.Call) (what, msg string)
 	// rejectKey lets a family give a root-cause name to a rejection of a legal argument.
 	rejectKey func(err error) string
+	ctx       *evalCtx // set by the driver: memoised match sets of the reference matcher
 }
 
 type family struct {
@@ -321,7 +322,7 @@ func fmtCalls(calls []srvkit.Call) string {
 
 // runCase executes one case on s and judges it.
 func runCase(s *sess, tc *tcase) *finding {
-	if tc.limit && !s.cfg.LitP {
+	if tc.limit && (!s.cfg.LitP || tc.state == stNotAuth) { // LITERAL+ is advertised only after authentication
 		// Without LITERAL+ a string of more than 4096 bytes goes out as a synchronising literal;
 		// the server refuses it without answering and keeps reading, the client keeps waiting for
 		// the continuation: both sit there until the server's 30 s read deadline (the in-memory
@@ -383,6 +384,9 @@ func runCase(s *sess, tc *tcase) *finding {
 	if what != "" {
 		if !tc.legal {
 			atomic.AddInt64(&cAlteredIllegal, 1)
+			if os.Getenv("C02_DEBUG") != "" {
+				fmt.Printf("debug: illegal argument altered: %s/%s -> %s: %s\n", s.cfg.Name, tc.desc, fmtCalls(calls), msg)
+			}
 			s.drop()
 			return nil
 		}
@@ -409,7 +413,6 @@ func runCase(s *sess, tc *tcase) *finding {
 // driver
 
 type chunk struct {
-	cfg    *config
 	fam    *family
 	lo, hi int
 }
@@ -486,19 +489,21 @@ func main() {
 	var chunks []chunk
 	perCfg := map[string]int64{}
 	perFam := map[string]int64{}
-	for _, cfg := range configs {
-		for _, f := range fams {
-			size := 256
-			for lo := 0; lo < f.n; lo += size {
-				hi := lo + size
-				if hi > f.n {
-					hi = f.n
-				}
-				chunks = append(chunks, chunk{cfg, f, lo, hi})
+	// A chunk is an index range of one family; the worker that takes it runs it under every
+	// configuration in turn (one client/server pair per configuration).
+	for _, f := range fams {
+		size := 128
+		for lo := 0; lo < f.n; lo += size {
+			hi := lo + size
+			if hi > f.n {
+				hi = f.n
 			}
-			perCfg[cfg.Name] += int64(f.n)
-			perFam[f.name] += int64(f.n)
+			chunks = append(chunks, chunk{f, lo, hi})
 		}
+		for _, cfg := range configs {
+			perCfg[cfg.Name] += int64(f.n)
+		}
+		perFam[f.name] += int64(f.n)
 	}
 	// big chunks first is not needed; keep the deterministic order (VERIF_SEED only rotates it)
 	if run.Seed != 0 && len(chunks) > 0 {
@@ -530,7 +535,7 @@ func main() {
 				fi = i
 			}
 		}
-		return [3]int{fi, h.idx, ci}
+		return [3]int{len(h.f.Detail["issued"].(string)), fi*10000000 + h.idx, ci}
 	}
 	less := func(a, b [3]int) bool {
 		for i := range a {
@@ -541,31 +546,45 @@ func main() {
 		return false
 	}
 	hitCount := map[string]int64{}
+	famNanos := map[string]*int64{}
+	for _, f := range fams {
+		famNanos[f.name] = new(int64)
+	}
+	only := os.Getenv("C02_FAMILIES") // development aid: comma-separated family names
 
 	vk.Parallel(len(chunks), func(ci int) {
 		ch := chunks[ci]
-		s := pool.get(ch.cfg)
-		for i := ch.lo; i < ch.hi; i++ {
-			tc := ch.fam.at(ch.cfg, i)
-			s.cur.Store(fmt.Sprintf("%s/%s/%d %s", ch.cfg.Name, ch.fam.name, i, clip(tc.desc, 300)))
-			atomic.StoreInt64(&s.busy, time.Now().UnixNano())
-			f := runCase(s, tc)
-			atomic.StoreInt64(&s.busy, 0)
-			if tc.nontrivial != "" {
-				run.NontrivialN(1) // distinct by construction: (configuration, family, index) is unique
-			}
-			if f != nil {
-				h := hit{ch.cfg, ch.fam, i, f}
-				hmu.Lock()
-				hitCount[f.Key]++
-				if old, ok := hits[f.Key]; !ok || less(order(h), order(old)) {
-					hits[f.Key] = h
-				}
-				hmu.Unlock()
-			}
+		if only != "" && !strings.Contains(","+only+",", ","+ch.fam.name+",") {
+			return
 		}
-		run.AddEvals(int64(ch.hi - ch.lo))
-		pool.put(s)
+		t0 := time.Now()
+		defer func() { atomic.AddInt64(famNanos[ch.fam.name], int64(time.Since(t0))) }()
+		ctx := &evalCtx{bits: map[string][]uint64{}}
+		for _, cfg := range configs {
+			s := pool.get(cfg)
+			for i := ch.lo; i < ch.hi; i++ {
+				tc := ch.fam.at(cfg, i)
+				tc.ctx = ctx
+				s.cur.Store(fmt.Sprintf("%s/%s/%d %s", cfg.Name, ch.fam.name, i, clip(tc.desc, 300)))
+				atomic.StoreInt64(&s.busy, time.Now().UnixNano())
+				f := runCase(s, tc)
+				atomic.StoreInt64(&s.busy, 0)
+				if tc.nontrivial != "" {
+					run.NontrivialN(1) // distinct by construction: (configuration, family, index) is unique
+				}
+				if f != nil {
+					h := hit{cfg, ch.fam, i, f}
+					hmu.Lock()
+					hitCount[f.Key]++
+					if old, ok := hits[f.Key]; !ok || less(order(h), order(old)) {
+						hits[f.Key] = h
+					}
+					hmu.Unlock()
+				}
+			}
+			run.AddEvals(int64(ch.hi - ch.lo))
+			pool.put(s)
+		}
 	})
 	for _, l := range pool.free {
 		for _, s := range l {
@@ -573,7 +592,7 @@ func main() {
 		}
 	}
 
-	// report: one artefact per key, the smallest case, confirmed 5x on fresh traced connections
+	// report: one artefact per key, the case with the shortest description, confirmed 5x on fresh traced connections
 	keys := make([]string, 0, len(hits))
 	for k := range hits {
 		keys = append(keys, k)
@@ -609,10 +628,11 @@ func main() {
 	run.Set("over_limit_string_delivered_intact", atomic.LoadInt64(&cLimitPassed))
 	run.Set("over_limit_string_not_executed_sync_literal", atomic.LoadInt64(&cLimitSkipped))
 	run.Set("search_differential_evaluations", atomic.LoadInt64(&cDiffEvals))
+	run.Set("search_reference_matcher_sweeps_over_universe", atomic.LoadInt64(&cDiffSweeps))
 	run.Set("search_universe_messages", len(universe))
 	run.Set("workers", runtime.GOMAXPROCS(0))
 	run.Rule = ruleText
-	run.Exhaustive = true
+	run.Exhaustive = only == ""
 	for _, a := range assumptions {
 		run.Assume(a)
 	}
@@ -622,7 +642,7 @@ func main() {
 	fmt.Printf("C02 configurations=%d families=%d cases/config=%d  illegal: rejected=%d refused-locally=%d altered=%d  over-limit: refused=%d intact=%d\n",
 		len(configs), len(fams), perCfg[configs[0].Name], cRejectedIllegal, cRefusedLocally, cAlteredIllegal, cLimitRefused, cLimitPassed)
 	for _, f := range fams {
-		fmt.Printf("  family %-28s %8d cases x %d configurations\n", f.name, f.n, len(configs))
+		fmt.Printf("  family %-30s %8d cases x %d configurations  %7.1f cpu-s\n", f.name, f.n, len(configs), float64(*famNanos[f.name])/1e9)
 	}
 	run.Finish()
 }
